@@ -603,16 +603,20 @@ pub struct CertCase {
     pub rpki_manifest: String,
     pub signed_object: String,
     pub rpki_notify: Option<String>,
+    /// Build a second time through `TbsCert::new` with decoy values followed by
+    /// the setters; both ways must give the same certificate.
+    #[serde(default)]
+    pub via_setters: bool,
 }
 
 fn cert_strategy(_: Tier) -> BoxedStrategy<CertCase> {
     (
         (prop::sample::select(vec![0u8, 1, 1, 2, 2, 3]), 0u8..8, 1u8..8, serial_strategy(), name_strategy(), name_strategy()),
-        (window_strategy(), any::<bool>(), any::<bool>(), any::<bool>()),
+        (window_strategy(), any::<bool>(), any::<bool>(), any::<bool>(), any::<bool>()),
         (res_strategy(true, true), res_strategy(false, true), res_strategy(true, true)),
         (rsync_strategy(None), rsync_strategy(None), rsync_strategy(None), rsync_strategy(None), rsync_strategy(None), prop::option::of(https_strategy())),
     )
-        .prop_map(|((kind, issuer_key, delta, serial, issuer_name, subject_name), (window, trim, strict, ta_aki), (v4, v6, asn), uris)| {
+        .prop_map(|((kind, issuer_key, delta, serial, issuer_name, subject_name), (window, trim, strict, ta_aki, via_setters), (v4, v6, asn), uris)| {
             let mut c = CertCase {
                 kind,
                 issuer_key,
@@ -633,6 +637,7 @@ fn cert_strategy(_: Tier) -> BoxedStrategy<CertCase> {
                 rpki_manifest: uris.3,
                 signed_object: uris.4,
                 rpki_notify: uris.5,
+                via_setters,
             };
             // stay inside the profile
             if c.kind == 0 {
@@ -676,16 +681,41 @@ fn run_cert(c: &CertCase, obs: &mut Obs) -> CheckResult {
     let subject_pub = if kind == 3 { keys::ec_key(c.subject_key as usize) } else { signer.info(c.subject_key as usize) };
     let issuer_name = make_name(&c.issuer_name)?.unwrap_or_else(|| issuer_pub.to_subject_name());
     let subject_name = make_name(&c.subject_name)?;
-    let built = no_panic("certificate builder", || -> Result<Cert, Fail> {
-        let mut tbs = TbsCert::new(
-            serial_of(&c.serial)?,
-            issuer_name.clone(),
-            c.window.validity()?,
-            subject_name.clone(),
-            subject_pub.clone(),
-            if kind <= 1 { KeyUsage::Ca } else { KeyUsage::Ee },
-            if c.trim { Overclaim::Trim } else { Overclaim::Refuse },
-        );
+    let build = |via_setters: bool| -> Result<Cert, Fail> {
+        let key_usage = if kind <= 1 { KeyUsage::Ca } else { KeyUsage::Ee };
+        let overclaim = if c.trim { Overclaim::Trim } else { Overclaim::Refuse };
+        let mut tbs = if !via_setters {
+            TbsCert::new(
+                serial_of(&c.serial)?,
+                issuer_name.clone(),
+                c.window.validity()?,
+                subject_name.clone(),
+                subject_pub.clone(),
+                key_usage,
+                overclaim,
+            )
+        } else {
+            // every constructor argument starts out as something else and is
+            // then put right through the documented setters
+            let decoy_pub = signer.info((c.subject_key as usize + 3) % 8);
+            let mut tbs = TbsCert::new(
+                1u64.into(),
+                decoy_pub.to_subject_name(),
+                Validity::new(time_s(86_400)?, time_s(172_800)?),
+                None,
+                decoy_pub,
+                if kind <= 1 { KeyUsage::Ee } else { KeyUsage::Ca },
+                if c.trim { Overclaim::Refuse } else { Overclaim::Trim },
+            );
+            tbs.set_serial_number(serial_of(&c.serial)?);
+            tbs.set_issuer(issuer_name.clone());
+            tbs.set_validity(c.window.validity()?);
+            tbs.set_subject_public_key(subject_pub.clone());
+            tbs.set_subject(subject_name.clone().unwrap_or_else(|| subject_pub.to_subject_name()));
+            tbs.set_key_usage(key_usage);
+            tbs.set_overclaim(overclaim);
+            tbs
+        };
         match kind {
             0 | 1 => {
                 tbs.set_basic_ca(Some(true));
@@ -726,7 +756,20 @@ fn run_cert(c: &CertCase, obs: &mut Obs) -> CheckResult {
             r => tbs.build_as_resource_blocks(|b| as_blocks(r).into_iter().for_each(|x| b.push(x))),
         }
         tbs.into_cert(&signer, &signer.key(c.issuer_key as usize)).map_err(|e| Fail::new(format!("signing failed: {}", e)))
-    })??;
+    };
+    let built = no_panic("certificate builder", || build(false))??;
+    obs.label_if(c.via_setters, "via-setters");
+    if c.via_setters {
+        let alt = no_panic("certificate builder (setters)", || build(true))??;
+        let a = no_panic("Cert::to_captured", || built.to_captured().into_bytes().to_vec())?;
+        let b = no_panic("Cert::to_captured (setters)", || alt.to_captured().into_bytes().to_vec())?;
+        ensure_sig!(
+            a == b, "c05:cert:setters-differ",
+            "a certificate built through TbsCert::new + setters differs from the one built through the constructor alone \
+(subject key identifier built {:?} vs via setters {:?})",
+            built.subject_key_identifier(), alt.subject_key_identifier()
+        );
+    }
     let der = no_panic("Cert::to_captured", || built.to_captured().into_bytes().to_vec())?;
 
     // (1) decodes and validates
